@@ -102,3 +102,110 @@ Proof.
   pose proof (parse_headers_within_limit c false (is_ssl c) (firstn i t) Hw) as Hp.
   destruct (parse_headers c false (is_ssl c) (firstn i t)) as [[hs h]|e]; [discriminate|congruence].
 Qed.
+
+(* ---- the whole request head: within all three limits => rejected for size nowhere ------------------------------ *)
+Lemma short_request_line_rest : forall lim data p i,
+    find_pat CRLF (data ++ concat p) = Some i -> (lim = 0 \/ N.of_nat i <= lim) ->
+    canon3 (read_line lim data p) = inl (firstn i (data ++ concat p), skipn (i + 2) (data ++ concat p)).
+Proof.
+  intros lim data p i Hf Hi. rewrite read_line_cut.
+  rewrite (scan_canon (find_pat CRLF) (rl_over lim) 2 2 (rl_post lim) (find_pat_stable CRLF) crlf_late crlf_bound (rl_over_mono lim) (rl_early lim)).
+  unfold abs_cut. rewrite Hf. unfold rl_post.
+  replace ((0 <? lim) && (lim <? N.of_nat i)) with false.
+  - cbn [rl_of_cut]. rewrite firstn_firstn. replace (Nat.min i (i + 2)) with i by lia. reflexivity.
+  - symmetry. destruct Hi as [->|Hi]; [reflexivity|]. apply andb_false_intro2. apply N.ltb_ge. exact Hi.
+Qed.
+
+Definition size_error (e : perr) : bool := match e with ELimitRequestLine | ELimitRequestHeaders => true | _ => false end.
+
+Lemma parse_request_line_no_size_error c x line e : parse_request_line c x line = inr e -> size_error e = false.
+Proof.
+  unfold parse_request_line.
+  destruct (splitn 32 2 line) as [|m [|uri [|ver [|? ?]]]]; try (intros [= <-]; reflexivity).
+  destruct (_ && _)%bool; [intros [= <-]; reflexivity|]. destruct (negb (is_token m)); [intros [= <-]; reflexivity|].
+  destruct uri as [|u0 uri]; [intros [= <-]; reflexivity|].
+  destruct (existsb _ _); [intros [= <-]; reflexivity|]. destruct (negb (uri_ok x _)); [intros [= <-]; reflexivity|].
+  destruct (parse_version ver) as [[a b]|]; [|intros [= <-]; reflexivity].
+  destruct (_ && _)%bool; [intros [= <-]; reflexivity|discriminate].
+Qed.
+Lemma te_vals_no_size_error : forall vals st e, te_vals st vals = inr e -> size_error e = false.
+Proof.
+  induction vals as [|v t IH]; intros st e; cbn [te_vals]; [discriminate|].
+  destruct (classify v); try (intros [= <-]; reflexivity);
+    (destruct (f_chunked st); [intros [= <-]; reflexivity|apply IH]).
+Qed.
+Lemma scan_headers_no_size_error : forall hs st e, scan_headers st hs = inr e -> size_error e = false.
+Proof.
+  induction hs as [|[n v] t IH]; intros st e; cbn [scan_headers]; [discriminate|].
+  destruct (beq n n_cl).
+  - destruct (f_cl st); [intros [= <-]; reflexivity|apply IH].
+  - destruct (beq n n_te); [|apply IH].
+    destruct (te_vals st (map (strip is_ows) (split_char 44 v))) as [st'|e'] eqn:Et; [apply IH|].
+    intros [= <-]. eapply te_vals_no_size_error. exact Et.
+Qed.
+Lemma set_body_reader_no_size_error hs ver e : set_body_reader hs ver = inr e -> size_error e = false.
+Proof.
+  unfold set_body_reader.
+  destruct (scan_headers _ hs) as [st|e'] eqn:Es; [|intros [= <-]; eapply scan_headers_no_size_error; exact Es].
+  destruct (f_chunked st).
+  - destruct (_ || _)%bool; [intros [= <-]; reflexivity|]. destruct (f_cl st); [intros [= <-]; reflexivity|discriminate].
+  - destruct (f_cl st) as [v|]; [|discriminate]. destruct (_ && _)%bool; [discriminate|intros [= <-]; reflexivity].
+Qed.
+
+Lemma parse_headers_loop_no_line_error c ft : forall fuel lines nn seen hh acc,
+    parse_headers_loop c ft fuel lines nn seen hh acc <> inr ELimitRequestLine.
+Proof.
+  induction fuel as [|fuel IH]; intros lines nn seen hh acc; cbn [parse_headers_loop]; [discriminate|].
+  destruct lines as [|curr rest]; [discriminate|].
+  destruct (eff_fields c <=? nn); [discriminate|].
+  destruct (find_char 58 curr) as [[|ii]|]; [discriminate| |discriminate].
+  destruct (span_ws rest) as [conts rest'].
+  destruct (negb (is_token _)); [discriminate|].
+  destruct (_ && negb (permit_obsolete_folding c))%bool; [discriminate|].
+  destruct ((0 <? eff_field_size c) && _)%bool.
+  { rewrite andb_true_r. destruct (match conts with [] => false | _ => true end); [discriminate|].
+    destruct (existsb _ _); discriminate. }
+  rewrite andb_false_r.
+  destruct (existsb _ _); [discriminate|].
+  match goal with |- context [match ?sr with inl _ => _ | inr _ => _ end] => destruct sr as [[seen' https']|e6] eqn:Esr end.
+  - destruct (mem 95 _); [destruct (bmem _ _ || bmem _ _)%bool; [apply IH|]; destruct (header_map c =? 2); [apply IH|];
+                          destruct (header_map c =? 0); [apply IH|discriminate]|apply IH].
+  - intros [= ->]. destruct (if negb ft && fwd_trusted c then assoc _ _ else None); [|discriminate Esr].
+    destruct seen; [destruct (Bool.eqb _ _); discriminate Esr|discriminate Esr].
+Qed.
+Lemma header_stage_no_line_error c rb p : header_stage c rb p <> inr ELimitRequestLine.
+Proof.
+  unfold header_stage. destruct (scan _ _ rb p) as [k dd q| |dd]; try discriminate.
+  destruct (prefixb CRLF dd); [discriminate|]. destruct (cap_post _ 4 k); [discriminate|].
+  pose proof (parse_headers_loop_no_line_error c false (S (length (split_crlf (firstn k dd)))) (split_crlf (firstn k dd)) 0 false (is_ssl c) []) as H.
+  unfold parse_headers. destruct (parse_headers_loop c false _ _ 0 false (is_ssl c) []) as [[hs h]|e5]; [discriminate|congruence].
+Qed.
+
+(* A request whose request line, number of fields and size of every field are within the configured limits is not
+   rejected for size - whatever else may be wrong with it, and however the stream is cut into reads. *)
+Theorem request_within_limits_not_rejected_for_size : forall c x n d p i j e,
+    proxy_protocol c = false -> 0 < eff_field_size c ->
+    find_pat CRLF (d ++ concat p) = Some i -> (eff_line c = 0 \/ N.of_nat i <= eff_line c) ->
+    prefixb CRLF (skipn (i + 2) (d ++ concat p)) = false ->
+    find_pat CRLFCRLF (skipn (i + 2) (d ++ concat p)) = Some j ->
+    within_limits c (S (length (split_crlf (firstn j (skipn (i + 2) (d ++ concat p))))))
+                  (split_crlf (firstn j (skipn (i + 2) (d ++ concat p)))) 0 = true ->
+    parse_from c x n d p = inr e -> size_error e = false.
+Proof.
+  intros c x n d p i j e Hpp Hfs Hf Hi Hd Hj Hw H.
+  pose proof (short_request_line_rest (eff_line c) d p i Hf Hi) as Hl.
+  unfold parse_from in H.
+  destruct (read_line (eff_line c) d p) as [[[l1 r1] p1]|e1]; cbn [canon3] in Hl; [|discriminate].
+  injection Hl as -> Hr.
+  unfold proxy_stage in H. rewrite Hpp in H. cbn [andb] in H.
+  destruct (parse_request_line c x _) as [[[m uri] ver]|e2] eqn:E2;
+    [|injection H as <-; eapply parse_request_line_no_size_error; exact E2].
+  pose proof (header_block_within_limits_not_rejected c r1 p1 j Hfs) as Hh. rewrite Hr in Hh.
+  specialize (Hh Hd Hj Hw).
+  destruct (header_stage c r1 p1) as [[[hs https] p4]|e3] eqn:E3.
+  - destruct (set_body_reader hs ver) as [[fr mc]|e4] eqn:E4; [discriminate|].
+    injection H as <-. eapply set_body_reader_no_size_error. exact E4.
+  - injection H as <-. cbn [canonH] in Hh.
+    (* a header-stage error: not ELimitRequestHeaders by Hh; ELimitRequestLine is never its answer *)
+    destruct e3; try reflexivity; [exfalso; eapply header_stage_no_line_error; exact E3|exfalso; apply Hh; reflexivity].
+Qed.
